@@ -619,6 +619,15 @@ def _flat(g):
     return h
 
 
+IMAGE_BUDGET = 1000000      # ~1 s of vm_compute for images_ok (measured: 90 raw / 90 kept matches of 7 atoms = 1.6e6 units: 3.6 s)
+
+
+def _image_cost(r):
+    msz = max((len(m) for m in r["raw"]), default=0)
+    ne = len(r["rc"]["edges"])
+    return len(r["raw"]) * max(1, len(r["kept"])) * (msz * msz + 4 * ne * ne)
+
+
 def _images_ok(r):
     """C11_Image.images_ok on the implementation's lists: every raw match puts the rule's labelled atoms and bonds (all
     attributes but atom_map; all edge attributes) on the same host atoms / atom pairs as some kept match"""
@@ -638,7 +647,8 @@ def _impl_prune(case, rule=None):
     r = _reactor(case, "front", rule=rule)
     auts = r.get("auts", [])
     sym = S([S([[u, v] for u, v in a.items()]) for a in auts]) if len(auts) <= 60 else S([])     # the symmetries themselves
-    return [[r["raw"], r["kept"], r["n_aut"]], True, True, (not _prune_representatives(r)) and r["reread"], sym, _images_ok(r)]
+    obs = [[r["raw"], r["kept"], r["n_aut"]], True, True, (not _prune_representatives(r)) and r["reread"], sym]
+    return [obs, _images_ok(r)] if _image_cost(r) <= IMAGE_BUDGET else obs
 
 
 # ------------------------------------------------------------------ history cases (one case = a script on SHARED objects)
@@ -829,7 +839,25 @@ def _oracle_hist(case):
     return fails
 
 
+CASE_CPU_LIMIT = 30.0     # CPU seconds for ONE impl() / oracle() / coq_case() call (largest on the unchanged tree: 5 s, the 120-atom chain)
+PRUNE_CPU_LIMIT = 400.0   # rule applications: the oracle glues EVERY raw match (thorough tier: whole-molecule templates with hundreds of
+                          # them; measured maximum 112 CPU-s for uspto21/full/bwd, everything else below 7)
+
+
+def _limit(case):
+    return PRUNE_CPU_LIMIT if case.get("kind") == "prune" or case.get("script") == "prune" else CASE_CPU_LIMIT
+
+
 def impl(case):
+    """the adapter under a CPU bound: a timeout is an exception, i.e. an observable that never equals a model value"""
+    try:
+        with GEN.cpu_limit(_limit(case)):
+            return _impl(case)
+    except GEN.CaseTimeout as e:
+        raise TimeoutError(str(e))
+
+
+def _impl(case):
     """[observable, True...]: the trailing booleans are the well-formedness of the graphs handed to the model (the
     premise `wf` of the theorems, computed by the model function wfb on the encoded graph)."""
     k = case["kind"]
@@ -936,6 +964,16 @@ def _mono_cost(g, labn, labe, cap):
 
 
 def coq_case(case):
+    """the encoder calls the implementation too (raw matches of a rule application, PartialMatcher's unpruned list): bounded
+    like impl(); a case whose encoding does not finish is outside the model's domain (the oracle still judges it)"""
+    try:
+        with GEN.cpu_limit(_limit(case)):
+            return _coq_case(case)
+    except GEN.CaseTimeout:
+        return None
+
+
+def _coq_case(case):
     k = case["kind"]
     if k == "hist":
         return _coq_hist(case)
@@ -1007,7 +1045,7 @@ def coq_case(case):
                 return None
         # the attribute dictionaries of rule.rc.raw as they are: which attributes count (all but atom_map; every edge
         # attribute) is decided in the model (C11_Attr.to_rule_graph)
-        return "run_prune_attr %s %s" % (_coq_agraph(rc)[0], _coq_maps(r["raw"]))
+        return "%s %s %s" % ("run_prune_attr_img" if _image_cost(r) <= IMAGE_BUDGET else "run_prune_attr", _coq_agraph(rc)[0], _coq_maps(r["raw"]))
     raise AssertionError(k)
 
 
@@ -1152,6 +1190,15 @@ def _oracle_aut_g(g, nk=None, G=None, ek=None):
             if len({col[n] for n in o}) != 1:
                 fails.append(dict(clause="wl-coarser", detail="attrs=%r: true orbit %r gets WL colours %r" % (attrs, o, [col[n] for n in o])))
                 break
+        if attrs is not WL_ATTRS4:
+            # ... nor two nodes of an orbit the exact analysis REPORTS under the same key configuration (both classes are handed the
+            # same options; with an empty list the estimate uses no label at all and is coarser still) - whatever rule they apply to
+            # absent attributes, it has to be ONE rule
+            for o in got:
+                if len({col[n] for n in o}) != 1:
+                    fails.append(dict(clause="wl-coarser", detail="keys %r / %r: orbit %r reported by the exact analysis gets WL colours %r under the "
+                                                                  "same configuration" % (nk, ek, sorted(o), [col[n] for n in sorted(o)])))
+                    break
         wl = est.orbits
         if sorted(n for o in wl for n in o) != sorted(G.nodes()):
             fails.append(dict(clause="wl-partition", detail="AutoEst.orbits is not a partition of the nodes: %r" % (wl,)))
@@ -1298,6 +1345,17 @@ def _prune_representatives(a):
 
 
 def oracle(case):
+    """the property oracle under a CPU bound.  No answer within the bound (six times the largest case of the unchanged tree) is
+    reported for this input: the analysis does not report the true number / orbits / reactions if it does not report at all."""
+    try:
+        with GEN.cpu_limit(_limit(case)):
+            return _oracle(case)
+    except GEN.CaseTimeout:
+        return [dict(clause="no-answer", detail="no answer within %g CPU-s on this input (implementation calls + brute-force reference; "
+                                                "the largest case of this kind on the unchanged tree needs a sixth of that)" % _limit(case))]
+
+
+def _oracle(case):
     k = case["kind"]
     if k == "aut":
         return _oracle_aut(case)[:3]
@@ -1318,7 +1376,25 @@ def oracle(case):
 
 # ------------------------------------------------------------------ shrinking / neighbours
 
+SHRINK_SECONDS = 20.0      # wall-clock budget of one shrink() (it runs in the main process, one oracle call per step)
+
+
+def _still_fails(c2, fl, deadline):
+    import time
+    if time.time() > deadline:
+        return False
+    try:
+        with GEN.cpu_limit(5.0):
+            return any(f["clause"] == fl["clause"] for f in _oracle(c2))
+    except (Exception, GEN.CaseTimeout):
+        return False
+
+
 def shrink(case, fl):
+    import time
+    deadline = time.time() + SHRINK_SECONDS
+    if fl.get("clause") == "no-answer":
+        return case                      # re-running an input that does not answer costs the whole bound per step
     if case["kind"] == "aut" and len(case["g"]["nodes"]) > 14:
         return case                      # every shrinking step re-runs the oracle: bounded work only
     if case["kind"] == "dedup" and len(case["ms"]) > 40:
@@ -1331,12 +1407,9 @@ def shrink(case, fl):
             for n, _ in list(g["nodes"]):
                 cand = {"nodes": [x for x in g["nodes"] if x[0] != n], "edges": [e for e in g["edges"] if n not in e[:2]]}
                 c2 = dict(case, g=cand, name=case.get("name", "") + "(shrunk)")
-                try:
-                    if any(f["clause"] == fl["clause"] for f in oracle(c2)):
-                        g, changed = cand, True
-                        break
-                except Exception:
-                    pass
+                if _still_fails(c2, fl, deadline):
+                    g, changed = cand, True
+                    break
         return dict(case, g=g, name=case.get("name", "") + "(shrunk)")
     if case["kind"] == "dedup":
         ms = list(case["ms"])
@@ -1345,17 +1418,24 @@ def shrink(case, fl):
             changed = False
             for k in range(len(ms)):
                 c2 = dict(case, ms=ms[:k] + ms[k + 1:])
-                try:
-                    if any(f["clause"] == fl["clause"] for f in oracle(c2)):
-                        ms, changed = c2["ms"], True
-                        break
-                except Exception:
-                    pass
+                if _still_fails(c2, fl, deadline):
+                    ms, changed = c2["ms"], True
+                    break
         return dict(case, ms=ms, name=case.get("name", "") + "(shrunk)")
     return case
 
 
+MAX_NEIGHBOURS = 8         # per disagreeing case (the framework searches the neighbours of up to 20 cases with impl + oracle each)
+
+
 def neighbours(case, rng):
+    out = _neighbours(case, rng)
+    if len(out) > MAX_NEIGHBOURS:
+        out = rng.sample(out, MAX_NEIGHBOURS)
+    return out
+
+
+def _neighbours(case, rng):
     if case["kind"] == "aut" and len(case["g"]["nodes"]) > 14:
         return []
     if case["kind"] == "aut":
@@ -1393,6 +1473,8 @@ def nontrivial(case, obs):
         return obs[0][0] > 1 or any(len(o) >= 2 for o in obs[2][1])
     if k == "dedup":
         return any(r[0] == 0 and len(r[1]) < len(case["ms"]) for r in _dedup_results(obs)[:-1])
+    if k == "prune" and isinstance(obs[0][0], list) and len(obs) == 2 and isinstance(obs[1], bool):
+        obs = obs[0]                      # [5-element observable, images flag]
     obs = obs[0]
     if k == "aut":
         return len(case["g"]["nodes"]) >= 2 and (obs[0] > 1 or any(len(o) >= 2 for o in obs[4][1]))
@@ -1443,6 +1525,10 @@ def distribution(cases, obss):
                 elif len(r[1]) < len(c["ms"]):
                     bump(d["dedup_dropped"], "cfg%d" % ci)
         elif c["kind"] == "prune":
+            if len(full) == 2 and isinstance(full[1], bool):
+                bump(d.setdefault("prune_same_labelled_images", {}), full[1])
+                full = full[0]
+                o = full[0]
             bump(d["prune_every_raw_match_represented"], bool(full[3]) if len(full) > 3 else "n/a")
             bump(d["prune_raw"], bucket(len(o[0])))
             bump(d["prune_rule_aut"], bucket(o[2]))
